@@ -121,14 +121,19 @@ def probed_bulk(ctx, dn, G, m, op):
     return True
 
 
-def exhaustive(ctx, dn, audit, max_len, classes=(False, True), tmax=4, spans=(None, 1, 2, 3), two_pairs_len=0):
+def exhaustive(ctx, dn, audit, max_len, classes=(False, True), tmax=4, spans=(None, 1, 2, 3), two_pairs_len=0,
+               reserve_frac=0.45):
     """EX: every history over the single-pair alphabet (both endpoint orders) up to max_len, and
     (optionally) every history over the two-pairs + self-loop alphabet up to two_pairs_len.
     The history is audited at its end (its prefixes are histories of their own)."""
     alpha = gen.all_single_pair_ops(tmax=tmax, spans=spans)
     done = True
+    reserve = ctx.budget_s * reserve_frac
     for directed in classes:
         for prog in gen.enumerate_histories(alpha, max_len, ctx.shard, ctx.nshards):
+            if ctx.time_left() < reserve:
+                done = False          # the universe was not finished: never reported as exhaustive
+                break
             _case(ctx, "EX1", directed, prog)
             run_program(ctx, dn, prog, directed, audit, every=0)
     ctx.sample(dict(workload="EX1", program=prog))
